@@ -47,7 +47,7 @@ func (o *SeqOp) Error() *pgproto3.ErrorResponse { return ErrorOf(o.Replies) }
 // SeqNames says how statements and portals are named in a script.
 type SeqNames struct {
 	NamedStatements bool // false: the unnamed statement (only where the shape allows it)
-	NamedPortals    bool
+	NamedPortals    bool // one named portal, bound again by every execution
 }
 
 // SeqShape is one way of sequencing the protocol messages of a list of statements.
@@ -80,7 +80,9 @@ func (b *SeqBuilder) stmtName(i int) string {
 
 func (b *SeqBuilder) portalName(i int) string {
 	if b.names.NamedPortals {
-		return fmt.Sprintf("%sp%d_%d", b.tag, i, b.exec)
+		// ONE portal name for every execution of the script: a portal does not outlive its cycle, so binding the name again
+		// (to another statement, with other result formats) is what a driver with a fixed portal name does
+		return b.tag + "portal"
 	}
 	return ""
 }
